@@ -27,7 +27,8 @@
 (***************************************************************************)
 EXTENDS NamesLaw, TLC, Json
 
-CONSTANTS MaxN,      \* glyph counts 1..MaxN
+CONSTANTS MinN, MaxN, \* glyph counts MinN..MaxN
+          MinRules,  \* a description has at least this many GSUB rules
           PoolSel,   \* "tiny" | "full": the pool of given names
           Codes,     \* set of code points that may be mapped
           MaxRules,  \* number of GSUB rules 0..MaxRules
@@ -35,7 +36,7 @@ CONSTANTS MaxN,      \* glyph counts 1..MaxN
           LigLens,   \* numbers of components of a ligature rule, subset of 1..3
           Kinds,     \* subset of {"ttf", "cff", "cid"}
           CmapFormats, \* cmap subtable formats the font may carry: subset of {"4", "12", "6", "0", "0mac"}
-          LigFirst,  \* -1, or: every ligature rule starts with this glyph and shares one subtable
+          LigFirst,  \* 0, or g >= 1: every ligature rule starts with glyph g and shares one subtable
           TextSel,   \* "none" | "A" | "mix": explicit glyph texts for MakeSimple (CFF kinds)
           Flags,     \* TRUE: also vary the single-substitution format (Gsub1_1 / Gsub1_2)
           Quiet      \* TRUE: no CASE output (exhaustive satisfiability runs)
@@ -71,7 +72,11 @@ PoolFull == {N_A, N_i, N_j, N_ij, N_i_j, N_space, N_orn001, N_orn002, N_A1, N_i_
              N_ctl, N_sp, N_dig, N_long, N_utf, NOTDEF}
 \* names that collide with the first, second and third candidate for one base name
 PoolClash == {N_A, N_A1, N_A2, N_Aalt1, N_Aalt2}
-Pool == IF PoolSel = "tiny" THEN PoolTiny ELSE IF PoolSel = "clash" THEN PoolClash ELSE PoolFull \cup PoolClash
+\* "own": no colliding names at all -- every named glyph has a unique valid name
+Pool == CASE PoolSel = "tiny"  -> PoolTiny
+          [] PoolSel = "clash" -> PoolClash
+          [] PoolSel = "own"   -> {<<103, 48 + Len(given)>>}
+          [] OTHER             -> PoolFull \cup PoolClash
 
 \* texts a glyph may stand for in MakeSimple; several glyphs may share one text, so that three
 \* and more glyphs compete for one glyph-list name and its variants
@@ -88,7 +93,7 @@ CodeSeq == SetToSortSeq(Codes, <)
 (* Building a description *)
 \* the outline kind and the subtable formats are fixed first (they do not matter to the law;
 \* a random walk then yields one description per kind rather than all kinds of one description)
-Init == /\ n \in 1..MaxN
+Init == /\ n \in MinN..MaxN
         /\ stage = "names" /\ given = <<>> /\ pcls = FALSE
         /\ todo = CodeSeq /\ cm = <<>> /\ rules = <<>> /\ prt = 0
         /\ kind \in Kinds /\ keep = 0
@@ -130,7 +135,8 @@ MapCode == /\ stage = "cmap" /\ pcls
            /\ UNCHANGED <<n, given, rules, prt, kind, keep, d1, cmf, txt>>
 
 RuleType == /\ stage = "rules" /\ prt = 0
-            /\ \/ stage' = (IF HasText THEN "text" ELSE "shape") /\ UNCHANGED prt
+            /\ \/ /\ Len(rules) >= MinRules
+                  /\ stage' = (IF HasText THEN "text" ELSE "shape") /\ UNCHANGED prt
                \/ /\ Len(rules) < MaxRules
                   /\ prt' \in RuleTypes /\ UNCHANGED stage
             /\ UNCHANGED <<n, given, pcls, todo, cm, rules, kind, keep, d1, cmf, txt>>
@@ -143,20 +149,22 @@ Joinable(t, src) ==
   /\ rules # <<>> /\ rules[Len(rules)].t = t
   /\ t = 1 => \A k \in 1..Len(rules) : rules[k].sub = LastSub => rules[k].src # src
 
+\* third and fourth components: any glyph of a small font, first or last glyph of a larger one
+Tail3 == IF n <= 4 THEN 0..n-1 ELSE {0, n-1}
 LigOfLen(len) == CASE len = 1 -> {<<a>> : a \in 0..n-1}
                    [] len = 2 -> {<<a, b>> : a \in 0..n-1, b \in 0..n-1}
-                   [] len = 3 -> {<<a, b, c>> : a \in 0..n-1, b \in 0..n-1, c \in {0, n-1}}
-                   [] len = 4 -> {<<a, b, c, d>> : a \in 0..n-1, b \in 0..n-1, c \in {0, n-1}, d \in {0, n-1}}
-\* LigFirst >= 0: a ligature SET -- all ligatures hang off one first glyph in one subtable, in the
+                   [] len = 3 -> {<<a, b, c>> : a \in 0..n-1, b \in 0..n-1, c \in Tail3}
+                   [] len = 4 -> {<<a, b, c, d>> : a \in 0..n-1, b \in 0..n-1, c \in Tail3, d \in Tail3}
+\* LigFirst > 0: a ligature SET -- all ligatures hang off one first glyph in one subtable, in the
 \* order generated, so that nameable ligatures follow ligatures abandoned at any component
-FirstOK(src) == LigFirst < 0 \/ src[1] = (IF LigFirst < n THEN LigFirst ELSE 0)
+FirstOK(src) == LigFirst = 0 \/ src[1] = (IF LigFirst < n THEN LigFirst ELSE 0)
 LigSrcs == {src \in UNION {LigOfLen(len) : len \in LigLens} : FirstOK(src)}
 
 RuleArgs == /\ stage = "rules" /\ prt # 0
             /\ \E src \in (IF prt = 4 THEN LigSrcs ELSE {<<a>> : a \in 0..n-1}),
                   dst \in 0..n-1 :
                  \E join \in (IF ~Joinable(prt, src) THEN {FALSE}
-                              ELSE IF prt = 4 /\ LigFirst >= 0 THEN {TRUE} ELSE BOOLEAN) :
+                              ELSE IF prt = 4 /\ LigFirst > 0 THEN {TRUE} ELSE BOOLEAN) :
                     rules' = Append(rules, [t |-> prt, src |-> src, dst |-> dst,
                                             sub |-> IF join THEN LastSub ELSE LastSub + 1])
             /\ prt' = 0
@@ -221,7 +229,7 @@ FirstFree(cand(_), used) ==
 
 Shortest(S) == CHOOSE x \in S : \A y \in S : Len(x) <= Len(y)
 Longest(S)  == CHOOSE x \in S : \A y \in S : Len(x) >= Len(y)
-Primary(c, st) == IF Listed(c) = {} THEN (IF st # "B" THEN UName(c) ELSE UniName(c))
+Primary(c, st) == IF Listed(c) = {} THEN (IF st # "B" \/ c >= 65536 THEN UName(c) ELSE UniName(c))
                   ELSE IF st # "B" THEN Shortest(Listed(c)) ELSE Longest(Listed(c))
 PrimaryText(t, st) == Join([k \in 1..Len(t) |-> Primary(t[k], st)])
 
